@@ -84,9 +84,13 @@ Get0(f, k)    == IF k \in DOMAIN f THEN f[k] ELSE 0
 AddTo(f, k, n) == IF n = 0 THEN f ELSE Put(f, k, Get0(f, k) + n)
 SetOrDrop(f, k, n) == IF n = 0 THEN Drop(f, {k}) ELSE Put(f, k, n)
 
-RECURSIVE SumOver(_, _)
-SumOver(f, S) == IF S = {} THEN 0
-                 ELSE LET x == CHOOSE y \in S : TRUE IN f[x] + SumOver(f, S \ {x})
+\* sum of f over the set S.  (Over a sequence of S's elements, by index: the textbook recursion on
+\* S \ {CHOOSE ...} nests TLC's lazy set differences and takes time exponential in |S| - fine for the
+\* model's handful of records, hopeless for a trace with a hundred bindings.)
+SX == INSTANCE SequencesExt
+RECURSIVE SumIdx(_, _, _)
+SumIdx(f, s, i) == IF i = 0 THEN 0 ELSE f[s[i]] + SumIdx(f, s, i - 1)
+SumOver(f, S) == LET s == SX!SetToSeq(S) IN SumIdx(f, s, Len(s))
 
 RECURSIVE SumSeq(_)
 SumSeq(s) == IF s = <<>> THEN 0 ELSE Head(s) + SumSeq(Tail(s))
@@ -583,7 +587,7 @@ BankSend(a, b, n) ==
 \* deposit, a slash fraction in [0, 1], a tax in [0, 1))
 CanSetParams(p) ==
     /\ phase = "deliver"
-    /\ p.maxTimeout > 0 /\ p.multiple > 0 /\ p.minDeposit >= 0 /\ p.refundDelay >= 2
+    /\ p.maxTimeout > 0 /\ p.multiple > 0 /\ p.minDeposit >= 0 /\ p.refundDelay >= 1
     /\ p.slash >= 0 /\ p.slash <= FScale
     /\ p.tax >= 0 /\ p.tax < FScale
 
